@@ -294,8 +294,128 @@ fn run_store<S: Settings>(settings: S, sc: &StoreScenario) -> RunOutcome {
     out
 }
 
-fn run_csv<S: Settings>(_settings: &S, _sc: &StoreScenario, _h: &Histories, _ops: &[Op], _lens: &[usize], out: &mut RunOutcome) {
-    out.probe("csv_not_implemented", 1);
+fn run_csv<S: Settings>(settings: &S, sc: &StoreScenario, h: &Histories, ops: &[Op], lens: &[usize], out: &mut RunOutcome) {
+    // the filesystem is real: a per-run scratch directory, removed afterwards
+    let dir = crate::driver::verif_root().join(".scratch").join(format!("csv-{:016x}-{:016x}", sc.chain_seed, sc.ops_seed));
+    let _ = std::fs::remove_dir_all(&dir);
+    let precision = *Prng::sub(sc.ops_seed, "csv").pick(&[6usize, 12, 17]);
+    let cfg = nuts_rs::CsvConfig::new(&dir).with_precision(precision).store_warmup(sc.store_warmup);
+    let mut hooks = DriveHooks { on_flush: Box::new(|_, _, _| {}), on_inspect: Box::new(|_f: (), _d: &[usize], _o: &mut RunOutcome| {}) };
+    let end = drive(settings, sc, cfg, h, ops, &mut hooks, out);
+    drop(hooks);
+    if !end_violation("csv", &end, out) {
+        check_csv(&dir, sc, h, lens, precision, out);
+    }
+    let _ = std::fs::remove_dir_all(&dir);
+}
+
+fn csv_cell_matches(cell: &str, v: f64, precision: usize) -> bool {
+    if v.is_nan() {
+        return cell == "NA";
+    }
+    if v.is_infinite() {
+        return cell == if v > 0.0 { "Inf" } else { "-Inf" };
+    }
+    match cell.parse::<f64>() {
+        Ok(x) => {
+            let half_ulp = 0.5 * 10f64.powi(-(precision as i32));
+            (x - v).abs() <= half_ulp * (1.0 + 1e-6) + 1e-15 * v.abs()
+        }
+        Err(_) => false,
+    }
+}
+
+fn check_csv(dir: &std::path::Path, sc: &StoreScenario, h: &Histories, lens: &[usize], precision: usize, out: &mut RunOutcome) {
+    // numeric variables in declaration order, flattened in row-major order
+    let numeric: Vec<&(String, ItemType)> = h.data_types.iter().filter(|(_, t)| matches!(t, ItemType::F64 | ItemType::F32 | ItemType::I64 | ItemType::U64)).collect();
+    for c in 0..h.chains.len() {
+        let path = dir.join(format!("chain_{c}.csv"));
+        let stored: Vec<&Rec> = h.chains[c].iter().take(lens[c]).filter(|r| sc.store_warmup || !r.progress.tuning).collect();
+        let text = match std::fs::read_to_string(&path) {
+            Ok(t) => t,
+            Err(e) => {
+                if !stored.is_empty() {
+                    out.violate("C14/csv/file_missing", format!("chain {c}: {e}"));
+                }
+                continue;
+            }
+        };
+        let mut lines = text.lines();
+        let header = lines.next().unwrap_or("");
+        let rows: Vec<&str> = lines.collect();
+        if stored.is_empty() {
+            if !rows.is_empty() {
+                out.violate("C14/csv/extra_rows", format!("chain {c}: {} rows, nothing was recorded", rows.len()));
+            }
+            continue;
+        }
+        if rows.len() != stored.len() {
+            out.violate("C14/csv/row_count", format!("chain {c}: {} rows in the file, {} draws recorded (store_warmup {})", rows.len(), stored.len(), sc.store_warmup));
+            continue;
+        }
+        let n_head = header.split(',').count();
+        for (ri, (row, rec)) in rows.iter().zip(&stored).enumerate() {
+            let cells: Vec<&str> = row.split(',').collect();
+            if cells.len() != n_head {
+                out.violate("C14/csv/column_count", format!("chain {c} row {ri}: {} cells, header has {n_head}", cells.len()));
+                return;
+            }
+            let stat = |name: &str| rec.stats.iter().find(|(n, _)| n == name).and_then(|(_, v)| v.clone());
+            let expect_stats: Vec<(&str, Option<Value>)> = vec![("logp", stat("logp")), ("mean_tree_accept", stat("mean_tree_accept")), ("step_size", stat("step_size")), ("depth", stat("depth")), ("n_steps", stat("n_steps")), ("diverging", stat("diverging")), ("energy", stat("energy"))];
+            let mut k = 0;
+            for (name, v) in expect_stats {
+                let cell = cells[k];
+                k += 1;
+                let ok = match v {
+                    None => cell == "NA" || (name == "diverging" && cell == "0"),
+                    Some(Value::ScalarF64(x)) => csv_cell_matches(cell, x, precision),
+                    Some(Value::ScalarU64(x)) => cell == x.to_string(),
+                    Some(Value::ScalarI64(x)) => cell == x.to_string(),
+                    Some(Value::ScalarBool(b)) => cell == if b { "1" } else { "0" },
+                    _ => true,
+                };
+                if !ok {
+                    out.violate(format!("C14/csv/stat_cell/{name}"), format!("chain {c} row {ri}: cell {cell:?}, recorded {:?} (precision {precision})", stat(name)));
+                    return;
+                }
+            }
+            for (vname, _t) in &numeric {
+                let v = rec.draws.iter().find(|(n, _)| n == vname).and_then(|(_, v)| v.clone());
+                let flat: Vec<(f64, Option<String>)> = match v {
+                    Some(Value::F64(x)) => x.iter().map(|a| (*a, None)).collect(),
+                    Some(Value::F32(x)) => x.iter().map(|a| (*a as f64, None)).collect(),
+                    Some(Value::I64(x)) => x.iter().map(|a| (0.0, Some(a.to_string()))).collect(),
+                    Some(Value::U64(x)) => x.iter().map(|a| (0.0, Some(a.to_string()))).collect(),
+                    Some(Value::ScalarF64(a)) => vec![(a, None)],
+                    Some(Value::ScalarF32(a)) => vec![(a as f64, None)],
+                    Some(Value::ScalarI64(a)) => vec![(0.0, Some(a.to_string()))],
+                    Some(Value::ScalarU64(a)) => vec![(0.0, Some(a.to_string()))],
+                    _ => vec![],
+                };
+                for (x, exact) in flat {
+                    if k >= cells.len() {
+                        out.violate("C14/csv/column_count", format!("chain {c} row {ri}: too few parameter cells"));
+                        return;
+                    }
+                    let cell = cells[k];
+                    k += 1;
+                    let ok = match &exact {
+                        Some(s) => cell == s,
+                        None => csv_cell_matches(cell, x, precision),
+                    };
+                    if !ok {
+                        out.violate(format!("C14/csv/parameter_cell/{vname}"), format!("chain {c} row {ri} column {k}: cell {cell:?}, recorded {:?}", exact.unwrap_or_else(|| format!("{x:e}"))));
+                        return;
+                    }
+                }
+            }
+            if k != cells.len() {
+                out.violate("C14/csv/column_count", format!("chain {c} row {ri}: {} cells, {} expected from the declared numeric variables", cells.len(), k));
+                return;
+            }
+        }
+        out.probe("csv_rows_checked", rows.len() as u64);
+    }
 }
 
 thread_local! {
